@@ -92,7 +92,7 @@ fn cmp_point() {
         c.get()
     });
     if CMP_PANIC_AT.with(|c| c.get()) == n {
-        panic!("vrt: armed comparison panic");
+        suspend(|| panic!("vrt: armed comparison panic"));
     }
 }
 
@@ -173,7 +173,8 @@ impl<const TAG: u8> Clone for Tracked<TAG> {
             c.get()
         });
         if CLONE_PANIC_AT.with(|c| c.get()) == n {
-            panic!("vrt: armed clone panic");
+            // the panic payload belongs to the harness: keep its allocation out of the capture window
+            suspend(|| panic!("vrt: armed clone panic"));
         }
         let pk = self.peek();
         if !pk.intact() {
@@ -225,5 +226,66 @@ impl<const TAG: u8> std::fmt::Display for Tracked<TAG> {
     fn fmt(&self, f: &mut std::fmt::Formatter<'_>) -> std::fmt::Result {
         cmp_point();
         write!(f, "t{}:{}", TAG, self.val)
+    }
+}
+
+/// Over-aligned variant of [`Tracked`] (same identity / logs / API, alignment 64): exercises the
+/// padding between the count word and the value in every handle representation.
+#[repr(C, align(64))]
+pub struct TrackedW<const TAG: u8>(Tracked<TAG>);
+impl<const TAG: u8> TrackedW<TAG> {
+    pub fn new(val: u32) -> Self {
+        TrackedW(Tracked::new(val))
+    }
+    pub fn peek(&self) -> Peek {
+        self.0.peek()
+    }
+    pub fn id(&self) -> u32 {
+        self.0.id()
+    }
+    pub fn val(&self) -> u32 {
+        self.0.val()
+    }
+    pub fn set_val(&mut self, v: u32) {
+        self.0.set_val(v)
+    }
+    pub fn flip(&mut self) {
+        self.0.flip()
+    }
+}
+impl<const TAG: u8> Clone for TrackedW<TAG> {
+    fn clone(&self) -> Self {
+        TrackedW(self.0.clone())
+    }
+}
+impl<const TAG: u8> Default for TrackedW<TAG> {
+    fn default() -> Self {
+        TrackedW(Tracked::default())
+    }
+}
+impl<const TAG: u8> PartialEq for TrackedW<TAG> {
+    fn eq(&self, o: &Self) -> bool {
+        self.0 == o.0
+    }
+}
+impl<const TAG: u8> Eq for TrackedW<TAG> {}
+impl<const TAG: u8> PartialOrd for TrackedW<TAG> {
+    fn partial_cmp(&self, o: &Self) -> Option<std::cmp::Ordering> {
+        self.0.partial_cmp(&o.0)
+    }
+}
+impl<const TAG: u8> Ord for TrackedW<TAG> {
+    fn cmp(&self, o: &Self) -> std::cmp::Ordering {
+        self.0.cmp(&o.0)
+    }
+}
+impl<const TAG: u8> std::hash::Hash for TrackedW<TAG> {
+    fn hash<H: std::hash::Hasher>(&self, h: &mut H) {
+        self.0.hash(h)
+    }
+}
+impl<const TAG: u8> std::fmt::Debug for TrackedW<TAG> {
+    fn fmt(&self, f: &mut std::fmt::Formatter<'_>) -> std::fmt::Result {
+        self.0.fmt(f)
     }
 }
